@@ -19,6 +19,7 @@ struct Report {
 	std::vector<ops::OpResult> results;
 	std::vector<rt::Switch> recorded;
 	uint64_t fingerprint = 0;
+	uint64_t sem_fingerprint = 0;    // results only (see rt::EventLog::sem)
 	uint64_t events = 0;
 	rt::SchedStats sched;
 	seam::SeamStats seams;
